@@ -833,4 +833,84 @@ theorem findLongestMatch_agrees (m : Matcher) (a b : List (List UInt8)) (hma : m
           case cont5 =>
             simp [mI]
 
+/-! ## 8. getMatchingBlocks -/
+
+/-- the matchers the theorems about `findLongestMatch` / `getMatchingBlocks` apply to: what `NewMatcher a b` builds -/
+structure MatcherOf (m : Matcher) (a b : List (List UInt8)) : Prop where
+  ha : m.a = a
+  hb : m.b = b
+  hb2j : ∀ x, GoDiff.mapGet m.b2j x [] = (Difflib.b2j b x).map (fun (i : Nat) => (i : Int))
+  hjunk : m.bJunk = []
+
+theorem NewMatcher_of (a b : List (List UInt8)) : MatcherOf (NewMatcher a b) a b :=
+  ⟨(NewMatcher_fields a b).2.1, (NewMatcher_fields a b).2.2.1, NewMatcher_b2j_agrees a b, (NewMatcher_fields a b).2.2.2.1⟩
+
+/-- **the recursive closure `matchBlocks` agrees with the hand port** (`Difflib.mbN`, the non-accumulating
+    form of `matchBlocksF`: `Difflib.matchBlocksF_eq`) for every fuel greater than `ahi - alo` -/
+theorem matchBlocks_sim (m : Matcher) (a b : List (List UInt8)) (hm : MatcherOf m a b) :
+    ∀ (f alo ahi blo bhi : Nat) (acc : List Difflib.Match), alo ≤ ahi → ahi ≤ a.length → blo ≤ bhi → bhi ≤ b.length →
+      ahi - alo < f →
+      sequenceMatcher_getMatchingBlocks_matchBlocks m f alo ahi blo bhi (acc.map mI) =
+        some ((acc ++ Difflib.mbN a b f alo ahi blo bhi).map mI) := by
+  intro f
+  induction f with
+  | zero => intro alo ahi blo bhi acc _ _ _ _ h; omega
+  | succ f ih =>
+    intro alo ahi blo bhi acc h1 h2 h3 h4 hf
+    have hflm := findLongestMatch_agrees m a b hm.ha hm.hb hm.hb2j hm.hjunk alo ahi blo bhi h1 h2 h3 h4
+    have hok := Difflib.flm_bestOK (a := a) (b := b) h1 h2 h3 h4
+    rw [sequenceMatcher_getMatchingBlocks_matchBlocks, Difflib.mbN]
+    simp only [hflm, Option.bind_eq_bind, Option.bind_some, Option.pure_def]
+    generalize Difflib.findLongestMatch a b alo ahi blo bhi = mm at hok ⊢
+    obtain ⟨mi, mj, mk⟩ := mm
+    obtain ⟨o1, o2, o3, o4, _⟩ := hok
+    simp only at o1 o2 o3 o4
+    simp only [mI]
+    by_cases hk : 0 < mk
+    · have hk' : decide (((mk : Nat) : Int) > 0) = true := by simp; omega
+      simp only [hk', if_true, hk]
+      have hkd : (mk : Int) > 0 := by omega
+      simp only [hkd, decide_true, if_true]
+      -- the second recursive call, for any accumulated prefix
+      have e2 : ∀ (acc1 : List Difflib.Match) (r : Option (List DifflibGen.Match)),
+          r = (if (decide ((mi : Int) + mk < ahi) && decide ((mj : Int) + mk < bhi)) = true then
+            (sequenceMatcher_getMatchingBlocks_matchBlocks m f ((mi : Int) + mk) ahi ((mj : Int) + mk) bhi
+              (acc1.map mI ++ [{ a := (mi : Int), b := (mj : Int), size := (mk : Int) }])).bind fun r => some r
+          else some (acc1.map mI ++ [{ a := (mi : Int), b := (mj : Int), size := (mk : Int) }])) →
+          r = some ((acc1 ++ (⟨mi, mj, mk⟩ : Difflib.Match) ::
+            (if mi + mk < ahi ∧ mj + mk < bhi then Difflib.mbN a b f (mi + mk) ahi (mj + mk) bhi else [])).map mI) := by
+        intro acc1 r hr
+        have ea : acc1.map mI ++ [{ a := (mi : Int), b := (mj : Int), size := (mk : Int) }] =
+            (acc1 ++ [(⟨mi, mj, mk⟩ : Difflib.Match)]).map mI := by simp [mI]
+        rw [ea] at hr
+        by_cases c : mi + mk < ahi ∧ mj + mk < bhi
+        · have q1 : (mi : Int) + mk < ahi := by omega
+          have q2 : (mj : Int) + mk < bhi := by omega
+          have e1 : (mi : Int) + mk = ((mi + mk : Nat) : Int) := by omega
+          have e2 : (mj : Int) + mk = ((mj + mk : Nat) : Int) := by omega
+          simp only [q1, q2, decide_true, Bool.and_self, if_true] at hr
+          rw [e1, e2, ih (mi + mk) ahi (mj + mk) bhi _ (by omega) h2 (by omega) h4 (by omega)] at hr
+          rw [hr, if_pos c]; simp
+        · have q : ¬ ((mi : Int) + mk < ahi) ∨ ¬ ((mj : Int) + mk < bhi) := by omega
+          rcases q with q | q
+          · simp only [q, decide_false, Bool.false_and, Bool.false_eq_true, if_false] at hr
+            rw [hr, if_neg c]; first | done | simp
+          · simp only [q, decide_false, Bool.and_false, Bool.false_eq_true, if_false] at hr
+            rw [hr, if_neg c]; first | done | simp
+      by_cases c1 : alo < mi ∧ blo < mj
+      · have q1 : (alo : Int) < mi := by omega
+        have q2 : (blo : Int) < mj := by omega
+        simp only [q1, q2, decide_true, Bool.and_self, if_true, c1, and_self]
+        rw [ih alo mi blo mj acc (by omega) (by omega) (by omega) (by omega) (by omega)]
+        simp only [Option.bind_some]
+        refine (e2 (acc ++ Difflib.mbN a b f alo mi blo mj) _ rfl).trans ?_; simp
+      · have q : ¬ ((alo : Int) < mi) ∨ ¬ ((blo : Int) < mj) := by omega
+        rcases q with q | q
+        · simp only [q, decide_false, Bool.false_and, Bool.false_eq_true, if_false, c1]
+          refine (e2 acc _ rfl).trans ?_; simp
+        · simp only [q, decide_false, Bool.and_false, Bool.false_eq_true, if_false, c1]
+          refine (e2 acc _ rfl).trans ?_; simp
+    · have hkd : ¬ ((mk : Int) > 0) := by omega
+      simp [hkd, hk]
+
 end GoSnaps.Tie.DifflibGen
